@@ -26,9 +26,11 @@
 NukedOPN2::NukedOPN2(OPNFamily f, bool ym3438)
     : OPNChipBaseT(f)
 {
-    OPN2_SetChipType(ym3438 ? ym3438_mode_readmode : ym3438_mode_ym2612);
     OPN_VERIF_YIELD("NukedOPN2:after-SetChipType");
-    chip = new ym3438_t;
+    ym3438_t *chip_r = new ym3438_t;
+    // the emulation mode belongs to this chip, not to the process
+    chip_r->chip_type = ym3438 ? ym3438_mode_readmode : ym3438_mode_ym2612;
+    chip = chip_r;
     setRate(m_rate, m_clock);
 }
 
